@@ -61,9 +61,10 @@ class Report:
         viol = [o for o in self.obs if not o.ok]
         new = [o for o in viol if o.key(self.prop) not in known_keys]
         kn = [o for o in viol if o.key(self.prop) in known_keys]
-        os.makedirs(os.path.join(VERIF, "out"), exist_ok=True)
-        os.makedirs(os.path.join(VERIF, "evidence"), exist_ok=True)
-        replay = os.path.join(VERIF, "out", "%s.violations.json" % self.prop)
+        outroot = os.environ.get("PFA_OUT") or VERIF
+        os.makedirs(os.path.join(outroot, "out"), exist_ok=True)
+        os.makedirs(os.path.join(outroot, "evidence"), exist_ok=True)
+        replay = os.path.join(outroot, "out", "%s.violations.json" % self.prop)
         json.dump({"property": self.prop, "tier": self.tier,
                    "violations": [o.to_json(self.prop) for o in new],
                    "known": [o.to_json(self.prop) for o in kn]}, open(replay, "w"), indent=1)
@@ -102,7 +103,7 @@ class Report:
             "wall_s": round(time.time() - self.t0, 3),
             "violations": len(new),
         }
-        json.dump(ev, open(os.path.join(VERIF, "evidence", "%s.json" % self.prop), "w"), indent=1)
+        json.dump(ev, open(os.path.join(outroot, "evidence", "%s.json" % self.prop), "w"), indent=1)
         for o in kn:
             print("KNOWN-FINDING: property=%s key=%s %s" % (self.prop, o.key(self.prop), known_keys[o.key(self.prop)].get("what", "")))
         for o in new:
